@@ -238,6 +238,23 @@ func (p *Parser) parseSetElement(expr ast.Expr, info *types.Info, wireAlias stri
 		// Nested wire call (Bind, Value, etc.)
 		pattern, _ := p.parseCallExpr(e, info, wireAlias, filePath, "")
 		return pattern
+	case *ast.CompositeLit:
+		// Foo{} is how a struct provider was written before wire.Struct existed, and wire still takes it:
+		// every field is filled (the wire:"-" tag is not looked at), Foo and *Foo are provided.
+		if tv, ok := info.Types[e]; ok && tv.Type != nil {
+			if st, isStruct := tv.Type.Underlying().(*types.Struct); isStruct {
+				fields := make([]string, 0, st.NumFields())
+				for f := range st.Fields() {
+					fields = append(fields, f.Name())
+				}
+				return &WireStruct{
+					baseWirePattern: baseWirePattern{Pos: e.Pos(), File: filePath},
+					StructType:      types.NewPointer(tv.Type),
+					Fields:          fields,
+					IsPointer:       true,
+				}
+			}
+		}
 	case *ast.Ident:
 		// Could be a provider function or set reference
 		if obj := info.ObjectOf(e); obj != nil {
